@@ -328,6 +328,28 @@ def create_functions(inp):
                 bad = "%s: %s" % (type(e).__name__, str(e)[:160])
             if bad:
                 note(key, {"std_type": st, "override": {kname: kval}, "observed": bad})
+    # bulk geodata: one shared polyline (any number of points) or one polyline per pipe reaches the geodata table unchanged
+    gkey = "bulk-geodata-reaches-the-table"
+    res[gkey] = {"ok": True, "cases": 0, "witness": None}
+    for fn_, kw_ in (("create_pipes_from_parameters", dict(length_km=0.3, inner_diameter_mm=100.)), ("create_pipes", dict(std_type=sorted(base.std_types["pipe"])[0], length_km=0.3))):
+        for npts in (2, 3, 4):
+            for shared in (True, False):
+                res[gkey]["cases"] += 1
+                n1 = copy.deepcopy(base)
+                line = [(float(k_), float(2 * k_)) for k_ in range(npts)]
+                geo = line if shared else [line, [(9., 9.)] + line[1:]]
+                want_ = [line, line] if shared else geo
+                before = copy.deepcopy(n1)
+                try:
+                    idx = getattr(pp, fn_)(n1, [2, 1], [3, 2], geodata=geo, **kw_)
+                    got = [[tuple(map(float, c)) for c in n1.pipe_geodata.at[i_, "coords"]] for i_ in idx]
+                    bad = None if got == [[tuple(c) for c in w_] for w_ in want_] else "stored coords %r, expected %r" % (got, want_)
+                except Exception as e:  # noqa
+                    bad = "%s: %s" % (type(e).__name__, str(e)[:120])
+                    if len(n1.pipe) != len(before.pipe):
+                        bad += " (raised after %d pipe rows were written)" % (len(n1.pipe) - len(before.pipe))
+                if bad:
+                    note(gkey, {"function": fn_, "points": npts, "one_shared_polyline": shared, "observed": bad})
     for p_bar, t_k, want in ((0.0, 300., "pt"), (0.0, None, "p"), (None, 0.0, "t"), (5., 300., "pt"), (float("nan"), 300., "t")):
         res[key]["cases"] += 1
         n1, n2 = copy.deepcopy(base), copy.deepcopy(base)
@@ -603,6 +625,32 @@ def graph_vs_solver(inp):
         if set().union(*supplied) if supplied else set() != calc:
             if (set().union(*supplied) if supplied else set()) != calc:
                 note("components-equal-solver-islands", {"flags_off": label, "graph": [sorted(c) for c in supplied], "solver": sorted(calc)})
+    # the status options act on their own component only
+    key = "status-options-act-on-their-own-component"
+    res[key] = {"ok": True, "cases": 0, "witness": None}
+    net = copy.deepcopy(base)
+    net.pipe.at[P[3], "in_service"] = False
+    net.valve.at[0, "opened"] = False          # pipe-attached valve on pipe P[1]
+    net.valve.at[1, "opened"] = False          # junction valve
+    net.pump.at[0, "in_service"] = False
+    for rs_pipes, rs_valves, rs_pumps in itertools.product([True, False], repeat=3):
+        res[key]["cases"] += 1
+        g = top.create_nxgraph(net, respect_status_pipes=rs_pipes, respect_status_valves=rs_valves, respect_status_pumps=rs_pumps)
+        exp = []
+        for idx, r in net.pipe.iterrows():
+            if (r.in_service or not rs_pipes) and not (idx == P[1] and rs_valves):
+                exp.append((r.from_junction, r.to_junction))
+        for idx, r in net.valve.iterrows():
+            if r.et == "ju" and (r.opened or not rs_valves):
+                exp.append((r.junction, r.element))
+        for idx, r in net.pump.iterrows():
+            if r.in_service or not rs_pumps:
+                exp.append((r.from_junction, r.to_junction))
+        exp = sorted(tuple(sorted((int(a), int(b)))) for a, b in exp)
+        got = sorted(tuple(sorted((int(a), int(b)))) for a, b, k in g.edges(keys=True))
+        if got != exp:
+            note(key, {"respect_status_pipes": rs_pipes, "respect_status_valves": rs_valves, "respect_status_pumps": rs_pumps,
+                       "graph": got, "expected": exp})
     # distances
     net = copy.deepcopy(base)
     for variant in ({}, {("pipe", P[1]): False}, {("valve", 0): False}):
